@@ -379,14 +379,15 @@ def run_variants(ctx: Ctx, cases):
     for c in cases:
         ctx.evaluations += 1
         nv = len(c["mcs"])
-        cvs = [{"mc": mc, "data": c["data"], "deviation": False, "rescale": False} for mc in c["mcs"]]
+        cvs = ks.variant_subcases(c)
         if any(ks.e2e_batch(cv).condS() > 1e8 for cv in cvs):
             ctx.count("variants:degenerate_joint_distribution_skipped"); continue
         try:
             m, db, span, out, info = ks.run_variants(c)
         except Exception as e:
             fail(ctx, "variants-raises", {"stream": "variants", "case": c}, repr(e)[:300]); continue
-        ctx.count(f"variants:nv={nv}")
+        ctx.count(f"variants:nv={nv}"); ctx.count(f"variants:rescale={bool(c.get('rescale'))}")
+        ctx.count(f"variants:deviation={bool(c.get('deviation'))}"); ctx.count(f"variants:tv_std={c['data']['std_e_t'] is not None}")
         ctx.nontriv(("variants", json.dumps(c["mcs"], sort_keys=True), json.dumps(c["data"]["mask"])))
         before = len(ctx.failures)
         for v in range(nv):
@@ -545,7 +546,7 @@ def run(ctx: Ctx):
     run_e2e(ctx, ucases, ctx.n(4, 30))
     run_config(ctx, cases[:ctx.n(4, 25)] + ucases[:ctx.n(6, 40)])
     rng = ctx.rng.fork("variants")
-    run_variants(ctx, [ks.gen_variant_case(rng.fork(i)) for i in range(ctx.n(8, 100))])
+    run_variants(ctx, [ks.gen_variant_case(rng.fork(i)) for i in range(ctx.n(14, 150))])
     rng = ctx.rng.fork("noncontiguous")
     ncases = [ks.gen_e2e_case(rng.fork(i), 9 if ctx.quick else 12, noncontiguous=True) for i in range(ctx.n(14, 200))]
     run_e2e(ctx, ncases, ctx.n(3, 20))
